@@ -315,7 +315,7 @@ def run_case(case):
                                 count("cli_equals_jit_bitwise")
                             if ref is not None:
                                 R, S = ref
-                                err, bnd, st = H.compare(a1[0].astype(complex if cmode else float), np.asarray(R).reshape(-1), np.asarray(S).reshape(-1), scalar, 0.0, ops=32)
+                                err, bnd, st = H.compare(a1[0].astype(complex if cmode else float), np.asarray(R).reshape(-1), np.asarray(S).reshape(-1), scalar, 1e-12, ops=32, floor=0.1)
                                 if st == "bad":
                                     viol("cli-kernel-differs-from-oracle", f"{fname} object {rec['obj']}: err {err:.3e}")
                                 elif st == "ok":
